@@ -13,7 +13,7 @@ A20 = ['형', '형.', '형..', '항.', '항...', '하앙...', '핫....', '흣...
        '흑....', '형.♥', '항...♥', '형..?♥', '항...♥!', '형.♡']
 A40 = A20 + ['항..', '하앙..', '흑.....', '형...♥', '형.!♥?♡', '핫...?♡!♥', '흣.', '흡....', '혀엉..', '혀어엉....', '흐윽...',
              '흑...?', '항....♥', '형..♡', '흣...!💕', '핫.', '흐읍....♥', '형....💕', '하앗...', '항']
-HORIZON = 256
+HORIZON = 2200
 MAXSTEPS = 64
 
 
@@ -406,8 +406,13 @@ STDIN_EXT = ['x', 'x\r\n', '\x00y\n', '\U0001F600\U00010000\n\n']
 def list_task(texts):
     st = Stats()
     sh = shim()
+    path = os.path.join(WORK, 'list-%d.hyeong' % os.getpid())
     for text in texts:
-        lockstep(sh, st, text, P.parse(text), '', {}, 0, 40, 'labels')
+        prog = P.parse(text)
+        lockstep(sh, st, text, prog, 'ab\nc', {}, 0, 120, 'labels')
+        with open(path, 'w', encoding='utf-8') as f:
+            f.write(text)
+        run_binary_case(sh, st, path, text, prog, 'ab\nc', 'run0:labels')
         st.inc('programs')
     return st
 
@@ -445,8 +450,8 @@ def run_c01(tier):
                         tasks.append(('programs', alpha, [a, b], L - 2, inputs, False))
                 else:
                     tasks.append(('programs', alpha, [a], L - 1, inputs, tier == 'quick' or L <= 3))
-    from .eng_optdiff import labelflow_family
-    labs = label_programs() + labelflow_family()
+    from .eng_optdiff import bigarith_family, labelflow_family
+    labs = label_programs() + labelflow_family() + bigarith_family()
     for i in range(0, len(labs), 60):
         tasks.append(('curated-list', labs[i:i + 60]))
     cur = curated_programs()
